@@ -6,6 +6,7 @@ mod core;
 mod core2;
 mod core3;
 mod core4;
+mod full;
 mod net;
 mod node;
 mod pnode;
